@@ -35,7 +35,7 @@ def fvec(t, y):
 
 def schema_case(method):
     """one accepted step of _make_step equals y + h sum b_i k_i with k_i = f(t + c_i h, y + h sum_j a_ij k_j), the class's own tableau"""
-    ins = [(k, "real") for k in X6] + [("t0", "real"), ("h", "pos"), ("tol", "pos")]
+    ins = [(k, "real") for k in X6] + [("t0", "real"), ("h", "real"), ("tol", "pos")]
 
     def run(env, v):
         if not env.symbolic:
@@ -95,18 +95,45 @@ def schema_case(method):
 
 
 def adapt_case(method):
-    """adaptive methods: the error estimate is h (b - b*) . k (position part), a step is accepted iff its norm <= tol, otherwise the
-    next trial step is min(step_max, h (tol / (2 err))^(1/(s-1)))"""
-    ins = [(k, "real") for k in X6] + [("t0", "real"), ("h", "pos"), ("tol", "pos")]
+    """adaptive methods: the quantity compared with the tolerance is the norm of h (b - b*) . k on the position part -- for steps of
+    either sign --, a step is accepted iff it is <= tol, otherwise the next trial step is min(step_max, h (tol/(2 err))^(1/(s-1)))"""
+    ins = [(k, "real") for k in X6] + [("t0", "real"), ("h", "real"), ("tol", "pos")]
+
+    def pre(v):
+        return [v["h"] != 0]
+
+    class TolProbe:
+        """stands for self.tol: records what it is compared with"""
+        def __init__(self, val):
+            self.val, self.seen = val, []
+
+        def __ge__(self, o):          # reflected form of  p_error <= tol
+            self.seen.append(o)
+            return o <= self.val
+
+        def __gt__(self, o):
+            self.seen.append(o)
+            return o < self.val
+
+        def __truediv__(self, o):
+            return self.val / o
+
+        def __rtruediv__(self, o):
+            return o / self.val
+
+        def __mul__(self, o):
+            return self.val * o
+        __rmul__ = __mul__
 
     def run(env, v):
         if not env.symbolic:
-            return {"_skip": 0}
+            return run_conc(env, v)
         kn = env.mod("beyond.propagators.keplernum")
         prop = kn.KeplerNum.__new__(kn.KeplerNum)
         prop.method = method
-        prop.step = SymTD(v["h"])
-        prop.tol = v["tol"]
+        prop.step = SymTD(abs(v["h"]))
+        probe = TolProbe(v["tol"])
+        prop.tol = probe
         orb = carrier([v[k] for k in X6], date=SymDate(v["t0"]), frame="EME2000", maneuvers=[])
         prop._orbit = orb
         calls = []
@@ -121,16 +148,6 @@ def adapt_case(method):
             mins.append((a, b))
             raise _Stop()
         kn.min = _min
-        norms = []
-        real_norm = kn.linalg.norm
-
-        class _LA:
-            @staticmethod
-            def norm(x, *a, **k):
-                r = real_norm(x, *a, **k)
-                norms.append((list(x), r))
-                return r
-        kn.linalg = _LA
         try:
             try:
                 step, y1 = prop._make_step(orb, SymTD(v["h"]))
@@ -143,29 +160,50 @@ def adapt_case(method):
         s = len(tab["b"])
         ks = [fvec(y.date.t, y) for y in calls[:s]]
         err = [sum(v["h"] * core.R.const(float(tab["b"][i] - tab["b_star"][i])) * ks[i][m] for i in range(s)) for m in range(3)]
-        code_err, p_err = norms[0]
-        out = {"stages": len(calls), "error_vector": [code_err[m] - err[m] for m in range(3)],
-               "accepted_iff_small": Holds((p_err <= v["tol"]) if accepted else (p_err > v["tol"]))}
+        e2 = err[0] * err[0] + err[1] * err[1] + err[2] * err[2]
+        p_err = probe.seen[0]
+        # a norm is non-negative: every factor of odd multiplicity of the compared quantity must be non-negative on its own (asked
+        # factor by factor so that a negative step length is found without solving for a non-zero error vector)
+        nonneg = SB(z3.BoolVal(p_err.coef >= 0))
+        for t, e in p_err.f.values():
+            if e % 2:
+                nonneg = nonneg & SB(t >= 0)
+        out = {"stages": len(calls), "compared_quantity_squared": p_err * p_err, "compared_quantity_is_a_norm": Holds(nonneg)}
         if not accepted:
             a, b = mins[0]
-            # b = h * (tol / (2 err)) ** (1/(s-1))  <=>  (b/h)^(s-1) * 2 err = tol
             ratio = b.secs / v["h"]
-            out["step_max_is_configured_step"] = a.secs
             out["new_step_power_law"] = (ratio ** (s - 1)) * 2 * p_err
         else:
-            out["step_max_is_configured_step"] = v["h"]
             out["new_step_power_law"] = v["tol"]
+        out["_e2"] = e2
         return out
+
+    def run_conc(env, v):
+        kn = importlib.import_module("beyond.propagators.keplernum")
+        from beyond.orbits import Orbit
+        from beyond.dates import Date
+        from beyond.env.solarsystem import get_body
+        res = {}
+        for sgn in (1, -1):
+            prop = kn.KeplerNum(_td(seconds=120), get_body("Earth"), method=method, tol=1e-3)
+            orb = Orbit([7e6, 0, 0, 0, 7.6e3, 500.0], Date(2020, 1, 1), "cartesian", "EME2000", prop)
+            prop.orbit = orb
+            step, y1 = prop._make_step(prop.orbit, _td(seconds=120 * sgn))
+            res[sgn] = abs(step.total_seconds())
+        same = abs(res[1] - res[-1]) <= 0.2 * res[1]
+        return {"stages": 0, "compared_quantity_squared": 0.0, "compared_quantity_is_a_norm": Holds(same), "new_step_power_law": 0.0,
+                "_e2": 0.0}
 
     def ref(env, v, out):
         if not env.symbolic:
-            return {"_skip": 0}
+            return {"stages": 0, "compared_quantity_squared": 0.0, "compared_quantity_is_a_norm": None, "new_step_power_law": 0.0, "_e2": 0.0}
         kn = importlib.import_module("beyond.propagators.keplernum")
-        return {"stages": len(kn.KeplerNum.BUTCHER[method]["b"]), "error_vector": [0, 0, 0], "accepted_iff_small": None,
-                "step_max_is_configured_step": v["h"], "new_step_power_law": v["tol"]}
-    return Case(f"adapt/{method}", ins, run, ref, timeout=60, maxpaths=20,
-                desc=f"{method}: error estimate = |h (b - b*) . k| on the position part, accepted iff <= tol, otherwise the next trial step "
-                     "is min(configured step, h (tol / (2 err))^(1/(s-1)))")
+        return {"stages": len(kn.KeplerNum.BUTCHER[method]["b"]), "compared_quantity_squared": out["_e2"], "compared_quantity_is_a_norm": None,
+                "new_step_power_law": v["tol"], "_e2": out["_e2"]}
+    return Case(f"adapt/{method}", ins, run, ref, pre=pre, timeout=60, maxpaths=20,
+                desc=f"{method}: what is compared with the tolerance is |h (b - b*) . k| on the position part (a norm, for forward and "
+                     "backward steps); accepted iff <= tol, otherwise the next trial step is min(configured step, "
+                     "h (tol/(2 err))^(1/(s-1)))")
 
 
 class _Stop(Exception):
